@@ -116,7 +116,7 @@ func (r *Run) TLC(o TLCOpts) (*TLCResult, error) {
 		res.Distinct, _ = strconv.ParseInt(m[2], 10, 64)
 	}
 	for _, line := range strings.Split(res.Out, "\n") {
-		if strings.HasPrefix(line, "{") || strings.HasPrefix(line, "[{") || strings.HasPrefix(line, "<<\"") || strings.HasPrefix(line, "\"[") {
+		if strings.HasPrefix(line, "{") || strings.HasPrefix(line, "[{") || strings.HasPrefix(line, "<<\"") || strings.HasPrefix(line, "\"{") || strings.HasPrefix(line, "\"[") {
 			res.Printed = append(res.Printed, line)
 		}
 	}
